@@ -122,7 +122,7 @@ fn enacted_logs(dir: &Path, last_enacted: u64) -> usize {
 	file_sizes(dir).into_iter().filter(|(n, s)| is_log(n) && *s >= 9).filter_map(|(n, _)| first_record_id(&dir.join(&n))).filter(|r| *r <= last_enacted).count()
 }
 
-fn apply(dir: &Path, d: &Damage, last_enacted: u64, touched: &mut bool) -> std::io::Result<()> {
+pub fn apply_damage(dir: &Path, d: &Damage, last_enacted: u64, touched: &mut bool) -> std::io::Result<()> {
 	use std::os::unix::fs::FileExt;
 	// the known-finding regression shapes address every log file
 	let logs = if matches!(d, Damage::DeleteFirst | Damage::CutFirstBelowHeader(_) | Damage::DeleteEnacted(_)) { pending_logs_after(dir, 0) } else { pending_logs_after(dir, last_enacted) };
@@ -237,6 +237,19 @@ fn apply(dir: &Path, d: &Damage, last_enacted: u64, touched: &mut bool) -> std::
 	Ok(())
 }
 
+/// Replaces everything after the 9-byte header of the last un-applied log file.
+pub fn replace_last_log_body(dir: &Path, last_enacted: u64, body: &[u8]) -> std::io::Result<()> {
+	let logs = pending_logs_after(dir, last_enacted);
+	if let Some(last) = logs.last() {
+		let p = dir.join(last);
+		let mut b = std::fs::read(&p)?;
+		b.truncate(9);
+		b.extend_from_slice(body);
+		std::fs::write(&p, b)?;
+	}
+	Ok(())
+}
+
 pub fn run_case(case: &WalCase, dir: &Path) -> CaseResult {
 	let mut out = CaseOut::default();
 	let sc = &case.sc;
@@ -260,7 +273,7 @@ pub fn run_case(case: &WalCase, dir: &Path) -> CaseResult {
 	});
 	let mut touched = false;
 	for d in &case.damage {
-		apply(&img, d, info.last_enacted_record, &mut touched).map_err(|e| Failure::new("harness-io", e.to_string()))?;
+		apply_damage(&img, d, info.last_enacted_record, &mut touched).map_err(|e| Failure::new("harness-io", e.to_string()))?;
 	}
 	// lower bound: what the tables already held
 	let enacted = info.cleaned_or_enacted;
